@@ -60,6 +60,9 @@ CHECKS = {
  "C19": dict(cat="model_checking", tech="TLA+ ResolverOps spec: TLC checks the failure counter / diff rules against the declarative contribution on all outcome sequences and emits them; every sequence is injected into a real DynamicHostResolver wired to a real RoundRobinBackend and Proxy loop; Trace_Resolver judges rotation, recognised backend addresses and closure after each step",
     text="All 9^5 = 59049 sequences of resolution outcomes over the subsets of 3 addresses and failure (length 6 too in thorough) are model-checked (operational counters == declarative contribution: last success unless >= 4 consecutive failures followed) and emitted; quick replays every 20th, thorough all, plus random sequences to length 60 over 5-7 addresses and two names, udp and tcp; after quiescence (res.notified + rr.* + loop.bev hooks) TLC compares GetAllBackend, the proxy's index of backend addresses, closure of vanished backends.",
     note=TB + "outcomes injected at addressResolved (the DNS lookup is the environment); two names never share an address; quiescence between steps.", ref="5/C19"),
+ "C11": dict(cat="model_checking", tech="TLA+ Framing spec (windowed reader with slice aliasing, fill, readLine step order) checked by TLC against the one-shot FrameAll under every segmentation; emitted (stream, segmentation) pairs and byte-level cut sweeps replayed on the real ParseMessage over bufio; Trace_Framing judges the extracted message sequence",
+    text="Framing.tla: 9 streams over the line-length classes around the reader window (W-1, W, W+1, 2W+1), bodies that look like SIP text, keep-alives, under every single and double (thorough: triple) cut - SegInd holds with the first fragment copied and is violated by the pinned readLine order. Each pair is expanded to 1 KiB per symbol (model window = bufio's 4096 bytes) and run on the real code with CRLF and LF; plus every single and double BYTE cut of short sequences, random multi-cuts (down to 1-byte segments) of long ones (lines to 20 KiB, bodies to 60 KiB, 1-8 messages), and real TCP.",
+    note=TB + "well-formed concatenations only; expectation built from the generator's structured messages.", ref="5/C11"),
 }
 NA_REASON = "check not built yet (work in progress; see DESIGN.md section 9)"
 
